@@ -104,7 +104,43 @@ theorem attachConv_fr (s : St) (n c : String) : Fr NT s (attachConv s n c).1 := 
       · have h := setTag_fr_rel (t' := { t with convs := t.convs ++ [c] }) ht ⟨rfl, rfl, fun _ h _ => h⟩
         exact ⟨h.all, h.next, h.sorted, h.keep⟩
 
-theorem detachConv_fr (s : St) (n c : String) : Fr NT s (detachConv s n c) := by
+/-- the named piece of `outputDropped`: payload tags become pending everywhere -- CHANGED (dropped) -/
+def odF (all : Nat) (t : Tag) : Tag :=
+  if (t.mfeat ||| t.sfeat) &&& fData != 0 then { t with unc := rangeSet all } else t
+
+theorem outputDropped_eq (s : St) (choice : Option String) :
+    outputDropped s choice =
+      if s.tags.any (fun nt => (nt.2.mfeat ||| nt.2.sfeat) &&& fData != 0) then
+        startTagging (invalidatedDuringTaggingJob
+          (inherit { s with tags := s.tags.map fun p => (p.1, odF s.all p.2) }) (rangeSet s.all)) choice
+      else s := by
+  have hmap : (s.tags.map fun p => (p.1, odF s.all p.2)) =
+      s.tags.map (fun (x : String × Tag) =>
+        if (x.2.mfeat ||| x.2.sfeat) &&& fData != 0 then (x.1, { x.2 with unc := rangeSet s.all }) else (x.1, x.2)) := by
+    apply List.map_congr_left
+    rintro ⟨n, t⟩ _
+    simp only [odF]
+    split <;> rfl
+  rw [hmap]
+  rfl
+
+theorem trel_odF (all : Nat) (t : Tag) : TRel all t (odF all t) := by
+  unfold odF
+  split
+  · exact ⟨rfl, rfl, fun id _ hb => by simpa using hb⟩
+  · exact TRel.refl _ _
+
+theorem outputDropped_fr (s : St) (choice : Option String) : Fr NT s (outputDropped s choice) := by
+  rw [outputDropped_eq]
+  split
+  · refine Fr.trans ?_ (Fr.of_same ((invalidatedDuring_same _ _).trans (startTagging_same _ _)))
+    refine Fr.trans (b := { s with tags := s.tags.map fun p => (p.1, odF s.all p.2) }) ?_ (inherit_fr _)
+    exact map_fr s _ (fun _ t => odF s.all t) rfl rfl rfl (fun _ t => trel_odF _ t)
+  · exact Fr.refl _ _
+
+-- CHANGED (dropped): `detachConv` takes the tagging choice and may run `outputDropped`
+theorem detachConv_fr (s : St) (n c : String) (choice : Option String := none) :
+    Fr NT s (detachConv s n c choice) := by
   unfold detachConv
   split
   · exact Fr.refl _ _
@@ -112,7 +148,8 @@ theorem detachConv_fr (s : St) (n c : String) : Fr NT s (detachConv s n c) := by
     have h := setTag_fr_rel (t' := { t with convs := t.convs.filter (· != c) }) ht ⟨rfl, rfl, fun _ h _ => h⟩
     simp only []
     split
-    · exact ⟨h.all, h.next, h.sorted, h.keep⟩
+    · refine Fr.trans ?_ (outputDropped_fr _ _)
+      exact ⟨h.all, h.next, h.sorted, h.keep⟩
     · exact ⟨h.all, h.next, h.sorted, h.keep⟩
 
 def muFresh (t : Tag) (addIds : List Nat) : List Nat :=
